@@ -182,12 +182,12 @@ func runPARUse(e *env, pairs bool) {
 	e.sweep("at the end")
 }
 
-func ZZ_C18_device_T() {
+func ZZ_C18_device() {
 	tx := storeChoice()
 	runDevice(newDeviceEnv(tx), false)
 }
 
-func ZZ_C18_par_T() {
+func ZZ_C18_par() {
 	tx := storeChoice()
 	if zz.Choice("stage", 2) == 0 {
 		runPARPush(newPAREnv(tx), false)
@@ -249,7 +249,7 @@ func runAuthorize(e *env, variant int) {
 	e.sweep("at the end")
 }
 
-func ZZ_C18_authorize_T() {
+func ZZ_C18_authorize() {
 	tx := storeChoice()
 	runAuthorize(newEnv("authorize", tx, nil), zz.Choice("variant", 3))
 }
